@@ -340,6 +340,12 @@ def _r3_block(inner: str, log: list) -> str:
     stmts = _split_stmts(inner)
     for k, st in enumerate(stmts):
         s = st.strip()
+        # let PAT = E else { continue; }; REST   ==>   if let PAT = E { REST }
+        ml = re.match(r'let\s+(.*?)\s*=\s*([^=].*?)\s*else\s*\{\s*continue\s*;\s*\}\s*;$', s, flags=re.S)
+        if ml and '=' not in ml.group(1).replace('=>', ''):
+            rest = _r3_block(''.join(stmts[k + 1:]), log)
+            log.append(('R3', 'let PAT = E else { continue; }; REST  ->  if let PAT = E { REST }'))
+            return ''.join(stmts[:k]) + '\nif let ' + ml.group(1) + ' = ' + ml.group(2) + ' {' + rest + '}\n'
         m = re.match(r'if\b', s)
         if not m or not re.search(r'continue\s*;\s*\}\s*$', s):
             continue
